@@ -3,9 +3,13 @@
 package bot
 
 import (
+	"context"
 	"io"
+	"sync"
 
 	mcnet "github.com/Tnze/go-mc/net"
+	pk "github.com/Tnze/go-mc/net/packet"
+	"github.com/Tnze/go-mc/net/queue"
 )
 
 // exported view of the unexported idleTagsDecoder for the C08 harness (never written to /repo)
@@ -14,3 +18,30 @@ func VerifC08IdleTags(r io.Reader) (int64, error) { return idleTagsDecoder{}.Rea
 // VerifC08JoinConfiguration runs the configuration-state packet loop (the handler that contains the
 // update-tags decoder) on a caller-supplied connection.
 func (c *Client) VerifC08JoinConfiguration(conn *mcnet.Conn) error { return c.joinConfiguration(conn) }
+
+// VerifC08HandlePacket dispatches one play-state packet to the registered handlers (what HandleGame does
+// for every packet it reads).
+func (c *Client) VerifC08HandlePacket(p pk.Packet) error { return c.handlePacket(p) }
+
+// VerifC08HasHandler says whether a handler is registered for the packet id.
+func (c *Client) VerifC08HasHandler(id int) bool {
+	return id >= 0 && id < len(c.Events.handlers) && len(c.Events.handlers[id]) > 0
+}
+
+// VerifC08NewConn is a Conn without a socket: what the handlers write is queued and dropped.
+func VerifC08NewConn(sock *mcnet.Conn) *Conn {
+	return &Conn{Conn: sock, send: queue.NewLinkedQueue[pk.Packet](), recv: queue.NewLinkedQueue[pk.Packet](),
+		pool: sync.Pool{New: func() any { return []byte{} }}}
+}
+
+// VerifC08JoinLogin runs the login-state packet loop on a caller-supplied connection.
+func (c *Client) VerifC08JoinLogin(conn *mcnet.Conn) error { return c.joinLogin(conn) }
+
+// VerifC08PingAndList is pingAndList on a caller-supplied connection.
+func VerifC08PingAndList(conn *mcnet.Conn) ([]byte, error) {
+	b, _, err := pingAndList(context.Background(), "localhost", conn)
+	return b, err
+}
+
+// VerifC08EncryptionRequest decodes the login Hello body.
+func VerifC08EncryptionRequest(r io.Reader) (int64, error) { var e encryptionRequest; return e.ReadFrom(r) }
